@@ -5,13 +5,13 @@
 
    Rust                                   Gallina
    ------------------------------------   -------------------------------------------
-   enum ChunkedState (10 variants)        [cst]
+   enum ChunkedState (11 variants)        [cst]
    Poll<Result<ChunkedState, io::Error>>  [res]: Pend = Poll::Pending, Ok, Err = io::Error
                                           (kind InvalidInput), Pan = panic (arithmetic
                                           overflow of `*size += rem` in a debug build)
    byte!(rdr)                             head of the list; [] => Pend
    ChunkedState::step                     [step]
-   read_size .. read_end_lf               [cstep] (the nine one-byte states), [step] (Body, End)
+   read_size .. read_end_lf               [cstep] (the ten one-byte states), [step] (Body, End)
 
    u64: [size] is a natural number; `checked_mul(16)` is written out as the test
    [sz * 16 <=? u64_max]; the unchecked `+=` is written out as a test that yields [Pan].
@@ -19,20 +19,21 @@
 
    Byte classes (chunked.rs as of this tree):
      hex digit        '0'-'9' 'a'-'f' 'A'-'F'
-     LWS              HT (9) | SP (32)            only AFTER the digits (Size -> SizeLws)
+     LWS              HT (9) | SP (32)            only AFTER the digits (SizeDigits -> SizeLws)
      ';'              59  -> Extension
      CR               13  -> SizeLf
      in an extension  CR ends it; 0x00-0x08, 0x0a-0x1f, 0x7f are errors; everything else
                       (including 0x09, 0x20, the double quote, bytes >= 0x80) stays in Extension
-   NOTE (finding F3): [Size] accepts LWS / ';' / CR without having seen any digit, so an empty
-   size line denotes size 0 (= last-chunk). *)
+   [Size] (start of a size line) accepts only a hex digit; LWS / ';' / CR are accepted from
+   [SizeDigits] on (finding F3, repaired by /repo bdb7061: before, an empty size line denoted
+   size 0 = last-chunk). *)
 From AV Require Import Lib.Base.
 
-Inductive cst := Size | SizeLws | Extension | SizeLf | Body | BodyCr | BodyLf | EndCr | EndLf | End.
+Inductive cst := Size | SizeDigits | SizeLws | Extension | SizeLf | Body | BodyCr | BodyLf | EndCr | EndLf | End.
 
 Definition cst_eqb (a b : cst) : bool :=
   match a, b with
-  | Size, Size | SizeLws, SizeLws | Extension, Extension | SizeLf, SizeLf | Body, Body
+  | Size, Size | SizeDigits, SizeDigits | SizeLws, SizeLws | Extension, Extension | SizeLf, SizeLf | Body, Body
   | BodyCr, BodyCr | BodyLf, BodyLf | EndCr, EndCr | EndLf, EndLf | End, End => true
   | _, _ => false
   end.
@@ -58,17 +59,26 @@ Definition lws_ext_cr (b : byte) (sz : N) : res (cst * N) :=
 Definition ext_forbidden (b : byte) : bool :=
   (b <=? 8) || ((10 <=? b) && (b <=? 31)) || (b =? 127).
 
-(* One byte in one of the nine states that consume exactly one byte and emit no data. *)
+(* the tail of read_size after a hex digit [d]: size.checked_mul(16), then the unchecked `+=` *)
+Definition size_digit (sz d : N) : res (cst * N) :=
+  if sz * 16 <=? u64_max then
+    (* *size = n; *size += rem as u64;   (overflow-checked in debug builds) *)
+    if sz * 16 + d <=? u64_max then Ok (SizeDigits, sz * 16 + d) else Pan
+  else Err.                                          (* "Size is too big" *)
+
+(* One byte in one of the ten states that consume exactly one byte and emit no data.
+   Size       = read_size(.., first = true):  only a hex digit is accepted (fix of F3, bdb7061)
+   SizeDigits = read_size(.., first = false): digit | LWS | ';' | CR *)
 Definition cstep (s : cst) (sz : N) (b : byte) : res (cst * N) :=
   match s with
   | Size =>
       match hexval b with
-      | Some d =>
-          (* size.checked_mul(16) *)
-          if sz * 16 <=? u64_max then
-            (* *size = n; *size += rem as u64;   (overflow-checked in debug builds) *)
-            if sz * 16 + d <=? u64_max then Ok (Size, sz * 16 + d) else Pan
-          else Err                                   (* "Size is too big" *)
+      | Some d => size_digit sz d
+      | None => Err                                  (* "Invalid chunk size line: Invalid Size" *)
+      end
+  | SizeDigits =>
+      match hexval b with
+      | Some d => size_digit sz d
       | None => lws_ext_cr b sz
       end
   | SizeLws => lws_ext_cr b sz
